@@ -77,7 +77,12 @@ func (x *Exec) evalCall(st *State, e *ast.CallExpr) []Val {
 			args = append(args, x.eval(st, sel.X))
 		}
 		for i, a := range e.Args {
-			v := x.eval(st, a)
+			var v Val
+			if pre, ok := st.preArgs[e]; ok && i < len(pre) {
+				v = pre[i] // a deferred call: the argument was evaluated at the defer statement
+			} else {
+				v = x.eval(st, a)
+			}
 			if isNilExpr(info, a) && i < sig.Params().Len() {
 				v.G = sig.Params().At(i).Type()
 				if want := x.w.sortOf(v.G); want != v.S {
